@@ -1,0 +1,152 @@
+package codegen
+
+import (
+	"fmt"
+
+	"github.com/HobbyOSs/gosk/pkg/cpu"
+	"github.com/HobbyOSs/gosk/pkg/ocode"
+)
+
+// opcodeMap (x86gen_no_param.go) は命令ごとに 1 バイトしか持てないため、2〜3 バイトの
+// オペコード (0F xx, x87 の D9 xx など) は先頭の 1 バイトだけが出力されていました。
+// noParamFullEncodings は、そのような命令の完全なエンコーディングです (Intel SDM Vol.2 のオペコード表による)。
+var noParamFullEncodings = map[ocode.OcodeKind][]byte{
+	ocode.OpAAD:      {0xD5, 0x0A},
+	ocode.OpAAM:      {0xD4, 0x0A},
+	ocode.OpCLTS:     {0x0F, 0x06},
+	ocode.OpCPUID:    {0x0F, 0xA2},
+	ocode.OpEMMS:     {0x0F, 0x77},
+	ocode.OpF2XM1:    {0xD9, 0xF0},
+	ocode.OpFABS:     {0xD9, 0xE1},
+	ocode.OpFADDP:    {0xDE, 0xC1},
+	ocode.OpFCHS:     {0xD9, 0xE0},
+	ocode.OpFCLEX:    {0x9B, 0xDB, 0xE2},
+	ocode.OpFCOM:     {0xD8, 0xD1},
+	ocode.OpFCOMP:    {0xD8, 0xD9},
+	ocode.OpFCOMPP:   {0xDE, 0xD9},
+	ocode.OpFCOS:     {0xD9, 0xFF},
+	ocode.OpFDECSTP:  {0xD9, 0xF6},
+	ocode.OpFDISI:    {0x9B, 0xDB, 0xE1},
+	ocode.OpFDIVP:    {0xDE, 0xF9},
+	ocode.OpFDIVRP:   {0xDE, 0xF1},
+	ocode.OpFENI:     {0x9B, 0xDB, 0xE0},
+	ocode.OpFINCSTP:  {0xD9, 0xF7},
+	ocode.OpFINIT:    {0x9B, 0xDB, 0xE3},
+	ocode.OpFLD1:     {0xD9, 0xE8},
+	ocode.OpFLDL2E:   {0xD9, 0xEA},
+	ocode.OpFLDL2T:   {0xD9, 0xE9},
+	ocode.OpFLDLG2:   {0xD9, 0xEC},
+	ocode.OpFLDLN2:   {0xD9, 0xED},
+	ocode.OpFLDPI:    {0xD9, 0xEB},
+	ocode.OpFLDZ:     {0xD9, 0xEE},
+	ocode.OpFMULP:    {0xDE, 0xC9},
+	ocode.OpFNCLEX:   {0xDB, 0xE2},
+	ocode.OpFNDISI:   {0xDB, 0xE1},
+	ocode.OpFNENI:    {0xDB, 0xE0},
+	ocode.OpFNINIT:   {0xDB, 0xE3},
+	ocode.OpFNOP:     {0xD9, 0xD0},
+	ocode.OpFNSETPM:  {0xDB, 0xE4},
+	ocode.OpFPATAN:   {0xD9, 0xF3},
+	ocode.OpFPREM:    {0xD9, 0xF8},
+	ocode.OpFPREM1:   {0xD9, 0xF5},
+	ocode.OpFPTAN:    {0xD9, 0xF2},
+	ocode.OpFRNDINT:  {0xD9, 0xFC},
+	ocode.OpFSCALE:   {0xD9, 0xFD},
+	ocode.OpFSETPM:   {0x9B, 0xDB, 0xE4},
+	ocode.OpFSIN:     {0xD9, 0xFE},
+	ocode.OpFSINCOS:  {0xD9, 0xFB},
+	ocode.OpFSQRT:    {0xD9, 0xFA},
+	ocode.OpFSUBP:    {0xDE, 0xE9},
+	ocode.OpFSUBRP:   {0xDE, 0xE1},
+	ocode.OpFTST:     {0xD9, 0xE4},
+	ocode.OpFUCOM:    {0xDD, 0xE1},
+	ocode.OpFUCOMP:   {0xDD, 0xE9},
+	ocode.OpFUCOMPP:  {0xDA, 0xE9},
+	ocode.OpFXAM:     {0xD9, 0xE5},
+	ocode.OpFXCH:     {0xD9, 0xC9},
+	ocode.OpFXTRACT:  {0xD9, 0xF4},
+	ocode.OpFYL2X:    {0xD9, 0xF1},
+	ocode.OpFYL2XP1:  {0xD9, 0xF9},
+	ocode.OpGETSEC:   {0x0F, 0x37},
+	ocode.OpINVD:     {0x0F, 0x08},
+	ocode.OpLFENCE:   {0x0F, 0xAE, 0xE8},
+	ocode.OpLOADALL:  {0x0F, 0x07},
+	ocode.OpMFENCE:   {0x0F, 0xAE, 0xF0},
+	ocode.OpMONITOR:  {0x0F, 0x01, 0xC8},
+	ocode.OpMWAIT:    {0x0F, 0x01, 0xC9},
+	ocode.OpPAUSE:    {0xF3, 0x90},
+	ocode.OpRDMSR:    {0x0F, 0x32},
+	ocode.OpRDPMC:    {0x0F, 0x33},
+	ocode.OpRDTSC:    {0x0F, 0x31},
+	ocode.OpRDTSCP:   {0x0F, 0x01, 0xF9},
+	ocode.OpREP:      {0xF3},
+	ocode.OpRSM:      {0x0F, 0xAA},
+	ocode.OpSFENCE:   {0x0F, 0xAE, 0xF8},
+	ocode.OpSYSCALL:  {0x0F, 0x05},
+	ocode.OpSYSENTER: {0x0F, 0x34},
+	ocode.OpSYSEXIT:  {0x0F, 0x35},
+	ocode.OpSYSRET:   {0x0F, 0x07},
+	ocode.OpUD2:      {0x0F, 0x0B},
+	ocode.OpVMCALL:   {0x0F, 0x01, 0xC1},
+	ocode.OpVMLAUNCH: {0x0F, 0x01, 0xC2},
+	ocode.OpVMRESUME: {0x0F, 0x01, 0xC3},
+	ocode.OpVMXOFF:   {0x0F, 0x01, 0xC4},
+	ocode.OpWBINVD:   {0x0F, 0x09},
+	ocode.OpWRMSR:    {0x0F, 0x30},
+	ocode.OpXGETBV:   {0x0F, 0x01, 0xD0},
+	ocode.OpXSETBV:   {0x0F, 0x01, 0xD1},
+}
+
+// noParamOperandSize は、オペランドサイズ属性を持つオペランドなし命令のオペランド幅です。
+// ビットモードの既定の幅と異なるときは 66h プレフィックスが必要です (例: 16bit モードの CWDE, 32bit モードの CBW)。
+var noParamOperandSize = map[ocode.OcodeKind]int{
+	ocode.OpCBW:    16,
+	ocode.OpCDQ:    32,
+	ocode.OpCWD:    16,
+	ocode.OpCWDE:   32,
+	ocode.OpIRETD:  32,
+	ocode.OpPOPAD:  32,
+	ocode.OpPOPFD:  32,
+	ocode.OpPUSHAD: 32,
+	ocode.OpPUSHFD: 32,
+}
+
+// noParamNotEncodable は、16/32bit モードにオペランドなしのエンコーディングが存在しない命令です
+// (64bit 専用、またはオペランドが必須)。1 バイトだけ出力すると別の命令になるため、エラーにします。
+var noParamNotEncodable = map[ocode.OcodeKind]string{
+	ocode.OpCDQE:    "64-bit only",
+	ocode.OpCQO:     "64-bit only",
+	ocode.OpDIV:     "needs an operand",
+	ocode.OpENTER:   "needs operands",
+	ocode.OpFRSTOR:  "needs a memory operand",
+	ocode.OpFXRSTOR: "needs a memory operand",
+	ocode.OpIDIV:    "needs an operand",
+	ocode.OpIRETQ:   "64-bit only",
+	ocode.OpJMPE:    "IA-64 only",
+	ocode.OpMUL:     "needs an operand",
+	ocode.OpPOPFQ:   "64-bit only",
+	ocode.OpPUSHFQ:  "64-bit only",
+	ocode.OpSWAPGS:  "64-bit only",
+	ocode.OpXRSTOR:  "needs a memory operand",
+}
+
+// NoParamEncoding は、オペランドなし命令 kind を bitMode でアセンブルしたときのバイト列を返します。
+// opcodeMap にない命令の場合は ok=false、エンコードできない命令の場合は err を返します。
+func NoParamEncoding(kind ocode.OcodeKind, bitMode cpu.BitMode) (code []byte, ok bool, err error) {
+	first, exists := opcodeMap[kind]
+	if !exists {
+		return nil, false, nil
+	}
+	if why, bad := noParamNotEncodable[kind]; bad {
+		return nil, true, fmt.Errorf("%s has no operand-less encoding in 16/32-bit mode (%s)", kind, why)
+	}
+	if size, sized := noParamOperandSize[kind]; sized {
+		if (size == 16) != (bitMode == cpu.MODE_16BIT) {
+			code = append(code, 0x66)
+		}
+	}
+	if full, multi := noParamFullEncodings[kind]; multi {
+		return append(code, full...), true, nil
+	}
+	return append(code, first), true, nil
+}
